@@ -80,7 +80,22 @@ func init() {
 		"vpYield":       func(e *Exec, _ *frame, _ *ssa.Function, a []Value) Value { e.yield(); return nil },
 		"vpIsOpaqueStr": func(e *Exec, _ *frame, _ *ssa.Function, a []Value) Value { return e.c.Bool(a[0].(Str).OpaqueID != 0) },
 		"vpHash64":      vpHash64,
-		"vpNote":        func(e *Exec, _ *frame, _ *ssa.Function, a []Value) Value { return nil },
+		"vpNote": func(e *Exec, _ *frame, _ *ssa.Function, a []Value) Value {
+			e.obs = append(e.obs, obsRec{tag: argStr(e, a[0])})
+			return nil
+		},
+		"vpNoteInt64": func(e *Exec, _ *frame, _ *ssa.Function, a []Value) Value {
+			e.obs = append(e.obs, obsRec{tag: argStr(e, a[0]), kind: 'i', v: a[1]})
+			return nil
+		},
+		"vpNoteBool": func(e *Exec, _ *frame, _ *ssa.Function, a []Value) Value {
+			e.obs = append(e.obs, obsRec{tag: argStr(e, a[0]), kind: 'b', v: a[1]})
+			return nil
+		},
+		"vpNoteStr": func(e *Exec, _ *frame, _ *ssa.Function, a []Value) Value {
+			e.obs = append(e.obs, obsRec{tag: argStr(e, a[0]), kind: 's', v: a[1]})
+			return nil
+		},
 		"vpSameObject": func(e *Exec, _ *frame, _ *ssa.Function, a []Value) Value {
 			x, y := a[0].(Iface), a[1].(Iface)
 			if x.T == nil || y.T == nil {
